@@ -691,7 +691,7 @@ def run(tier, seed):
     lap('grammar-impl')
     from concurrent.futures import ThreadPoolExecutor
     pool = ThreadPoolExecutor(4)
-    fut_g = pool.submit(run_model_c14, FGGCHK, vals, 12 if quick else 60, seed, "c14fgg")
+    fut_g = pool.submit(run_model_c14, FGGCHK, vals, 8 if quick else 60, seed, "c14fgg", 8 if quick else 12)
     # ---------------- sum_product before / after
     # The round-tripped grammar has dense weights.  It is compared with the original grammar whose
     # weights were densified in place (same denotation, checked exactly in the grammar stream): equal
@@ -775,7 +775,7 @@ def run(tier, seed):
                                         corr="C14_patterned_weights", call="fggs.json_to_weights(spec)",
                                         finding_key="patterned_weights_spec_without_vaxes"))
     lap('weights-impl')
-    fut_w = pool.submit(run_model_c14, WCHK, wvals, 24 if quick else 90, seed, "c14w", 12, 8)
+    fut_w = pool.submit(run_model_c14, WCHK, wvals, 16 if quick else 90, seed, "c14w", 8 if quick else 12, 8)
     # PatternedTensors built with fggs.indices -> weights_to_json
     n_pt = 300 if quick else 4000
     pvals, pmetas = [], []
@@ -792,7 +792,7 @@ def run(tier, seed):
         pvals.append((wire, jw(j))); pmetas.append(dict(shape=shape, kinds=sorted(kinds), json=j))
         for k in kinds: bump("pattern_kinds", k)
     lap('pt-impl')
-    fut_p = pool.submit(run_model_c14, WJCHK, pvals, 24 if quick else 90, seed, "c14wj", 12, 8)
+    fut_p = pool.submit(run_model_c14, WJCHK, pvals, 16 if quick else 90, seed, "c14wj", 8 if quick else 12, 8)
     # ---------------- malformed stream
     n_m = 260 if quick else 3000
     mvals, mmetas = [], []
@@ -814,7 +814,7 @@ def run(tier, seed):
         mvals.append((jw(doc), is_fgg, obs)); mmetas.append(dict(defect=kind, is_fgg=is_fgg, json=doc, observed=obs))
         bump("malformed", kind)
     lap('mal-impl')
-    mcodes, nk4 = run_model_c14(MALCHK, mvals, 12 if quick else 60, seed, "c14mal")
+    mcodes, nk4 = run_model_c14(MALCHK, mvals, 8 if quick else 60, seed, "c14mal", 8 if quick else 12)
     codes, nk = fut_g.result(); wcodes, nk2 = fut_w.result(); pcodes, nk3 = fut_p.result()
     pool.shutdown()
     lap('model')
